@@ -41,7 +41,13 @@ MANIFEST = dict(
          "until the stop. The real code answers to the same operators (spec/Phout.tla): every line the real "
          "aggregators hand to their sink must be PhoutLine(s) / decode to s of a not yet written report, the "
          "counts must add up at Run return, and real processes stopped by SIGINT/SIGTERM must leave "
-         "lines + drops between the reports returned before the signal and the reports begun before exit.",
+         "lines + drops between the reports returned before the signal and the reports begun before exit. "
+         "Beyond the statement: PoolAgg.tla composes the engine's await loop with the aggregator (the aggregator is "
+         "cancelled only after every instance result was awaited; exactly which late reports a provider failure or "
+         "user cancel may lose), validated on real engine runs whose life-cycle hooks are merged into the "
+         "report/line trace (TracePoolAgg.tla); Sink.tla / TraceSink.tla: result files are created/truncated, never "
+         "appended, closed once (two pools with ONE file name tear and lose lines: known finding); the discard and "
+         "log aggregators and the buffer-size / flush-interval option bounds as further cases of Aggregator.tla.",
     note="Bounds: design K<=3 reporters x 2 samples, Q<=2; conformance K in 1..8, queue 1..64, flush 1 ms..1 s, "
          "int32 field values, tags without TAB/LF (phout), timestamps 2001..2038. Trusted: the syntactic line "
          "splitter and the recording sinks of harness/cmd/vdrive/agg*.go, the counting wrapper of vpandora. Not "
